@@ -343,6 +343,7 @@ def run(ctx: Ctx) -> None:
     for k in "hgfedcba":
         deepl = {k: deepl, "s" + k: "x y"}
     corpus += [{"l": [2, 2.0, 1.0, 1, True, 10**16, 1e16, 0, 0.0, False, -0.0, 0]}, {"a": 1, "b": 1.0, "c": True, "m": [[1, 1.0], [1.0, 1]]}]
+    corpus += [{"k": ["#", "include", "foo"], "l": ["#", "includes"], "m": "#", "n": ["a", "#"]}]
     corpus += [{"k": "yes", "l": ["no", "yes", "y", "n", "t", "f", "nil", "~"], "n": {"m": "no"}}]
     corpus += [deep, deepl, {"encoding": "latin-1", "author": "Jörg Müller"}, {"coding": "utf-16", "t": "é"}]
     for d in corpus:
